@@ -7,7 +7,7 @@
     comparison of every run (tools/props.py run_C05), not by these theorems.                 *)
 From Coq Require Import ZArith Reals List.
 From Rubato.Model Require Import Num Reals Base Async Resamplers.
-From Rubato.Proofs Require Import MalformedP ContentP FastInR FastOutR StreamR StreamOutR FftInOutP FftInR FftStreamP FftInStreamR.
+From Rubato.Proofs Require Import MalformedP ContentP FastInR FastOutR StreamR StreamOutR FftInOutP FftInR FftOutR FftStreamP FftInStreamR FftOutStreamR.
 From Rubato.Model Require Import Fft.
 From Rubato.Gen Require Import SynchroGen.
 Import ListNotations.
@@ -80,7 +80,9 @@ Proof. exact fast_variant_independent_R. Qed.
     size nor a sub-chunk count nor a variant.  FftFixedInOut (any arithmetic) hands out exactly this stream, one block
     per call; FftFixedIn (ideal arithmetic for its f32 quotient), whatever its chunk size and sub_chunks, hands out the
     canonical stream of the complete blocks it has consumed and parks the rest: every (chunk_size, sub_chunks) pair
-    that resolves to the same block size yields the same stream.  FftFixedOut: by the family comparison only. *)
+    that resolves to the same block size yields the same stream.  FftFixedOut delivers, chunk_size_out frames at a
+    time, a prefix of the canonical stream of the blocks it has consumed, the produced-but-undelivered frames being
+    the next ones of that stream. *)
 Theorem C05_fft_inout_stream : forall (C : CNum) (S : SNum C) unit_fn (c : nat) calls (s : @fstate C S FftFixedInOut) ov,
   xio_wf unit_fn s -> nth_error (fs_overlaps s) c = Some ov -> xio_live c calls ->
   match xio_stream unit_fn c s calls with
@@ -123,6 +125,35 @@ Theorem C05_fft_in_stream_R : forall unit_fn rate_in rate_out chunk sub nch s (c
   end.
 Proof. exact xi_fresh_stream. Qed.
 
+(** one call of FftFixedOut *)
+Theorem C05_fft_out_call_R : forall unit_fn (s : @fstate CR SR FftFixedOut) wi wo m (c : nat) X ov0 M w,
+  xo_wf unit_fn s -> xo_pre s wi wo m = Ok tt -> xo_holds unit_fn s c X ov0 M -> zlen ov0 = ofout s ->
+  nth_error wi c = Some w -> match m with Some mk => nth_error mk c = Some true | None => True end ->
+  let X' := X ++ firstn (Z.to_nat (oneed s)) w in
+  let Y' := fst (canon unit_fn (ofout s) (chunks (ofin s) X') ov0) in
+  exists s' outs o',
+    @xo_pib CR SR unit_fn s wi wo m = Ok (s', (oneed s, oCo s), outs) /\ xo_wf unit_fn s' /\
+    ofin s' = ofin s /\ ofout s' = ofout s /\ oCo s' = oCo s /\
+    xo_holds unit_fn s' c X' ov0 (M + oCo s)%Z /\
+    nth_error outs c = Some o' /\
+    firstn (Z.to_nat (oCo s)) o' = firstn (Z.to_nat (oCo s)) (skipn (Z.to_nat M) Y') /\
+    firstn (Z.to_nat M) Y' = firstn (Z.to_nat M) (fst (canon unit_fn (ofout s) (chunks (ofin s) X) ov0)).
+Proof. exact xo_call_stream. Qed.
+
+(** what a freshly constructed FftFixedOut delivers, any chunk_size_out and sub_chunks *)
+Theorem C05_fft_out_stream_R : forall unit_fn rate_in rate_out chunk sub nch s (c : nat) calls,
+  (0 < rate_in)%Z -> (0 < rate_out)%Z -> (1 <= chunk)%Z -> (0 <= nch)%Z -> (c < Z.to_nat nch)%nat ->
+  @fft_out_new CR SR rate_in rate_out chunk sub nch = inr (RFftOut s) ->
+  (forall w, zlen w = ofin s -> zlen (unit_fn w) = (2 * ofout s)%Z) ->
+  xi_live c calls ->
+  match xo_stream unit_fn c s [] calls with
+  | Ok (s', X', ys) =>
+      ys = firstn (length ys) (fst (@canon CR SR unit_fn (ofout s) (chunks (ofin s) X') (@zeros CR SR (ofout s))))
+  | Err _ => True
+  | Panic _ | UB _ | Diverge => False
+  end.
+Proof. exact xo_fresh_stream. Qed.
+
 Print Assumptions C05_fast_in_call_R.
 Print Assumptions C05_fast_in_stream_R.
 Print Assumptions C05_fast_out_stream_R.
@@ -131,3 +162,5 @@ Print Assumptions C05_fast_variant_independent_R.
 Print Assumptions C05_fft_inout_stream.
 Print Assumptions C05_fft_in_call_R.
 Print Assumptions C05_fft_in_stream_R.
+Print Assumptions C05_fft_out_call_R.
+Print Assumptions C05_fft_out_stream_R.
